@@ -199,6 +199,9 @@ def r3(ctx):
                         'char: context is (%s, %s)' % (show_in(b, f['ctx_start']), show_in(b, f['ctx_end'])))
         else:
             we = f['window_end']
+            if f['ctx_start'][0] in ('var', 'phi') and not has(f['ctx_start'], Call('count_until', ANY, ANY, ANY)):
+                # the left context found by an explicit backward walk (a loop-carried position) instead of count_until over the reversed range
+                raise AnchorMissing('byte: the left context as window_start - count_until((0..window_start).rev(), context, cs) (it is the loop state `%s`)' % show_in(b, f['ctx_start'])[:40])
             ok = match(f['ctx_start'], Call('saturating_sub', ws, Call('count_until', Pred(lambda u: has(u, Call('Iterator::rev', ('agg', 'adt', Pred(lambda n: n.endswith('Range::Range')), (Const(0), ws)))) or
                                                                                              has(u, ('agg', 'adt', Pred(lambda n: n.endswith('Range::Range')), (Const(0), ws)))), ('arg', 3, ANY), ANY))) and \
                 match(f['ctx_end'], ('bin', 'Add', eq(we), Call('count_until', ('agg', 'adt', Pred(lambda n: n.endswith('Range::Range')), (eq(we), Call('CharString::len', ANY))), ('arg', 3, ANY), ANY)))
@@ -475,6 +478,17 @@ def charstring_positions(ctx):
         if fl is not None and rl is not None:
             cl = core(fl)
             okl = cl[0] == 'call' and cl[1].endswith('Vec::len') and any(isinstance(x, tuple) and x and nosite(core(x)) == nosite(core(cl[2][0])) for x in walk(core(rl)))
+            if not okl and not (cl[0] == 'call' and cl[1].rsplit('::', 1)[-1] == 'len') and not any(
+                    isinstance(x, tuple) and x and x[0] == 'call' and x[1].rsplit('::', 1)[-1] in ('len', 'count') for x in walk(cl)):
+                # not a length of anything: counted some other way (summed run counts, a counter stepped while segmenting)
+                from analysis.reduce import reduce_of
+                from analysis.seq import ITEM as _ITM
+                r_ = reduce_of(ctx.facts, nw, fl)
+                if r_ is not None and r_.op == 'add' and r_.init is not None and match(core(r_.init), Const(0)) and len(r_.segs) == 1 and r_.segs[0].kind == 'each' and \
+                        not r_.segs[0].conds and nosite(core(r_.segs[0].src)) == nosite(core(rl)) and core(r_.segs[0].elem) == ('field', _ITM, 1):
+                    okl = True      # the sum of the run counts of the table that is stored
+                else:
+                    raise AnchorMissing('CharString::new: the stored length as the length of the cluster-length vector (it is `%s`)' % show_in(nw, fl)[:80])
     ctx.require(okl, nw, 'stored-len', 'the stored length is the number of cluster lengths the run-length table is built from', None)
     # ---- chars / get_char / Character accessors
     from analysis.seq import seq_of_iter, ITEM as _IT
@@ -535,6 +549,10 @@ def run_length_table(ctx):
         raise AnchorMissing('run_length_encode: one loop and one counter (found %d / %d)' % (len(lps), len(ints)))
     cnt = ints[0]
     rows = iteration_table(e, lps[0], {'count': cnt}) or []
+    if rows and not any(isinstance(row['delta']['count'], int) and row['delta']['count'] != 0 for row in rows):
+        # the one usize state is not stepped by a constant anywhere: not a run counter (e.g. the start index of the current run) -- an
+        # encoder of another shape, which this rule cannot judge
+        raise AnchorMissing('run_length_encode: a counter-based encoder (`%s` is never stepped by a constant)' % (e.var_name(cnt) or 'state'))
     pushes_all = [t for t in e.calls(r'Vec::push$')]
     seen = set()
     for row in rows:
